@@ -184,6 +184,14 @@ impl Architecture {
 
     /// Adds an argmax layer to this architecture.
     pub fn argmax(&mut self) -> Result<(), ShapeError> {
+        // argmax compares at least two components and returns a single index
+        if self.current_shape.max_dim() < 2 {
+            return Err(ShapeError::Dim {
+                expected: 2,
+                got: self.current_shape.max_dim(),
+            });
+        }
+        self.current_shape = TensorShape::Flat { in_dim: 1 };
         self.operators.push((Layer::Argmax, self.current_shape));
         Ok(())
     }
